@@ -14,7 +14,8 @@ exception)`) raises nothing by itself; every CALL of it is a site (site["via"] =
 is the EXCEPT_ constant written in that argument position.  A call whose argument is not an EXCEPT_ constant
 (a variable, machine->exception, ...) has exceptions == [] and is reported like any other such site; a
 function that sets VM_EXCEPTION and does not assign machine->exception from a parameter is no helper and
-stays an ordinary site.  helper_assignments(repo) lists the assignments inside helpers, so that the caller
+stays an ordinary site - except the constant raise helper: a straight-line function (no vm_execute_/libvm_execute_ handler) with
+exactly one raise and exactly one `machine->exception = EXCEPT_X`; its calls are sites (via = helper) raising EXCEPT_X.  helper_assignments(repo) lists the assignments inside helpers, so that the caller
 can still account for every `machine->running = VM_EXCEPTION` of the sources.
 """
 import os
@@ -129,6 +130,13 @@ def _raise_helpers(lines, funcs):
         assigned = re.findall(r"machine->exception\s*=\s*\(?\s*(?:\(\s*\w+\s*\)\s*)?(\w+)\s*\)?\s*;", body)
         if len(assigned) == 1 and assigned[0] in params and not assigned[0].startswith("EXCEPT_"):
             out[name] = (params.index(assigned[0]), a, b)
+        elif len(assigned) == 1 and re.fullmatch(r"EXCEPT_\w+", assigned[0]) and len(re.findall(RAISE_RE, body)) == 1 \
+                and len(re.findall(r"machine->exception\s*=", body)) == 1 and not re.match(r"(vm_execute_|libvm_execute_)", name) \
+                and not re.search(r"\b(if|else|switch|while|for|return)\b", body):
+            # constant raise helper: `static void libvm_raise_nil_pointer(vm * machine) { machine->running = VM_EXCEPTION;
+            # machine->exception = EXCEPT_NIL_POINTER; }` - straight-line body, one raise, one constant; every call is a site
+            # raising that constant (position = the constant itself instead of a parameter index)
+            out[name] = (assigned[0], a, b)
     return out
 
 
@@ -137,6 +145,8 @@ def _helper_call(line, helpers):
     for h, (pos, _a, _b) in helpers.items():
         m = re.search(r"\b%s\s*\((.*)\)\s*;" % re.escape(h), line)
         if m:
+            if isinstance(pos, str):
+                return h, [pos]               # constant raise helper
             args = _split_args(m.group(1))
             arg = args[pos] if pos < len(args) else ""
             return h, ([arg] if re.fullmatch(r"EXCEPT_\w+", arg) else [])
